@@ -207,7 +207,81 @@ func c06EncFlat(x []int, res bool) []int64 {
 	return out
 }
 
+// c06Unfactor spells the same pattern with an empty group in front of every alternation branch and group body.
+// Go's regexp/syntax factors common leading literals out of alternations and (go1.25) loses the case-folding flag
+// while doing so: `A|(?i:a)b` is simplified to `A(?:(?:)|b)`, so stdlib finds no match in "ab", and `(?i:a)b|A`
+// becomes `(?i:A)(?:b|(?:))`, which matches "a".  An empty group in front of a branch keeps the factoring away.
+// The stdlib is used as the oracle only on (pattern, input) pairs where both spellings give the same answer.
+func c06Unfactor(pat string) string {
+	rs := []rune(pat)
+	var b strings.Builder
+	b.WriteString("(?:)")
+	for i := 0; i < len(rs); i++ {
+		ch := rs[i]
+		switch {
+		case ch == '\\' && i+1 < len(rs):
+			b.WriteRune(ch)
+			i++
+			b.WriteRune(rs[i])
+		case ch == '[':
+			// copy the class verbatim
+			j := i + 1
+			if j < len(rs) && rs[j] == '^' {
+				j++
+			}
+			if j < len(rs) && rs[j] == ']' {
+				j++
+			}
+			for j < len(rs) && rs[j] != ']' {
+				if rs[j] == '\\' {
+					j++
+				} else if rs[j] == '[' && j+1 < len(rs) && rs[j+1] == ':' {
+					for j+1 < len(rs) && !(rs[j] == ':' && rs[j+1] == ']') {
+						j++
+					}
+					j++
+				}
+				j++
+			}
+			if j >= len(rs) {
+				j = len(rs) - 1
+			}
+			b.WriteString(string(rs[i : j+1]))
+			i = j
+		case ch == '|':
+			b.WriteString("|(?:)")
+		case ch == '(':
+			j := i + 1
+			if j < len(rs) && rs[j] == '?' {
+				// (?:  (?P<name>  (?flags:  (?flags)
+				j++
+				if j < len(rs) && rs[j] == 'P' {
+					for j < len(rs) && rs[j] != '>' {
+						j++
+					}
+				} else {
+					for j < len(rs) && rs[j] != ':' && rs[j] != ')' {
+						j++
+					}
+				}
+				if j >= len(rs) {
+					j = len(rs) - 1
+				}
+				b.WriteString(string(rs[i : j+1]))
+				b.WriteString("(?:)")
+				i = j
+			} else {
+				b.WriteString("((?:)")
+			}
+		default:
+			b.WriteRune(ch)
+		}
+	}
+	return b.String()
+}
+
 type c06Pair struct {
+	go2 *regexp.Regexp // the same pattern spelled so that Go's parser cannot factor alternation prefixes (nil if that does not compile)
 	go_ *regexp.Regexp
 	ad  *compat.Regexp
 	anc *regexp2.Regexp // \G(?:P) under RE2
@@ -235,6 +309,9 @@ func c06Compile(pat string) (*c06Pair, string) {
 	}
 	ad.Unwrap().MatchTimeout = 3 * time.Second
 	p := &c06Pair{go_: g, ad: ad, pat: pat, gw: map[int]*regexp.Regexp{}}
+	if g2, err := regexp.Compile(c06Unfactor(pat)); err == nil && g2.NumSubexp() == g.NumSubexp() {
+		p.go2 = g2
+	}
 	if anc, err := regexp2.Compile(`\G(?:`+pat+`)`, regexp2.RE2); err == nil {
 		anc.MatchTimeout = 3 * time.Second
 		p.anc = anc
@@ -362,6 +439,14 @@ type c06Stats struct {
 func c06Unit(c *Ctx, st *c06Stats, p *c06Pair, hasB bool, s string, origin string) {
 	desc := fmt.Sprintf("%s RE2 pattern %q input %+q", origin, p.pat, s)
 	guard := c06Guard(p.pat, hasB, s)
+	if p.go2 != nil {
+		// the oracle must agree with itself on an equivalent spelling of the pattern (see c06Unfactor)
+		if fmt.Sprint(p.go_.FindAllStringSubmatchIndex(s, -1)) != fmt.Sprint(p.go2.FindAllStringSubmatchIndex(s, -1)) ||
+			fmt.Sprint(p.go_.FindStringSubmatchIndex(s)) != fmt.Sprint(p.go2.FindStringSubmatchIndex(s)) {
+			c.Hist("stdlib-self-inconsistent")
+			return
+		}
+	}
 	st.units++
 	if guard != "" {
 		st.guarded++
@@ -555,6 +640,7 @@ var c06Corpus = []c06Witness{
 	{`(?m)$`, "a\nb\n"}, {`(?m)^`, "a\nb\n"}, {`\z`, "a\n"}, {`a*?`, "aa"}, {`(a|ab)(c|bcd)`, "abcd"}, {`(?:(a)|b)+`, "ab"}, {`(a)|b`, "b"},
 	{`.`, "\r\n x\xff"}, {`(?s).`, "\r\n"}, {`[^a]`, "\xffa\n"}, {`(?i)s`, "ſS"}, {`(?i)k`, "KK"}, {`\w+`, "aé_9٣"}, {`\s`, " \v\t\f\r\n "},
 	{`.aa`, "aaa"}, {`.aa`, "aaaa"}, {`[^x]aba`, "ababa"}, {`..abab`, "xababab"}, {`.éé`, "ééé"}, {`.\.\.`, "...."}, {`[ab]aa`, "aaab aaa"}, // a self-overlapping literal at a fixed distance: an occurrence too close to the start must not hide the next one
+	{`(A|(?i:a)\.*)`, "xaA"}, {`(?i:a)b|A`, "xaA"}, {`A|[Aa]b`, "ab"}, // Go's parser loses the fold flag when it factors these alternations: the oracle disagrees with itself and the pair is skipped
 	{`(a)(b)?`, "a"}, {`(?i:a)b`, "Ab AB"}, {`日*`, "日日a"}, {`\d+|\D`, "12ab"}, {`é?`, "éé"},
 }
 
